@@ -6,6 +6,7 @@ from vlib import e2e, wf
 
 PROP = "C05"
 THEOREMS = [
+    "GitAi.Sys.wf_all_notes",
     "GitAi.NotesTree.one_note_per_object",
     "GitAi.NotesTree.lookup_finds_all",
     "GitAi.NotesTree.specSet_lookup",
